@@ -184,6 +184,16 @@ def run_manager(w):
 
 def main():
     w = json.load(open(sys.argv[1]))
+    if isinstance(w, list):          # batch mode (conformance runs): one output per witness
+        outs = []
+        for one in w:
+            try:
+                outs.append(run_storage(one) if one['kind'] == 'storage' else run_manager(one) if one['kind'] == 'manager'
+                            else {'error': 'no realiser'})
+            except BaseException as e:   # noqa
+                outs.append({'error': f'{type(e).__name__}: {e}'})
+        print(json.dumps(outs))
+        return
     kind = w['kind']
     if kind == 'storage':
         out = run_storage(w)
